@@ -472,8 +472,14 @@ class Kernel:
                     out.append(fd)
         return out
 
+    def freeze(self, pname):
+        """The process stops being scheduled (a suspended laptop, SIGSTOP): it stays in its select() for ever."""
+        p = self.procs[pname]
+        p.frozen = True
+        self.emit("freeze", pname)
+
     def _wake(self, p, gen):
-        if p.gen != gen or p.state not in ("wait", "sleep"):
+        if p.gen != gen or p.state not in ("wait", "sleep") or getattr(p, "frozen", False):
             return
         if p.state == "sleep":
             p.state = "running"
@@ -485,7 +491,7 @@ class Kernel:
 
     def _poke(self, p):
         """Resume p if it is waiting on something that became readable."""
-        if p.state != "wait":
+        if p.state != "wait" or getattr(p, "frozen", False):
             return
         ready = self._ready(p, p.wait_fds)
         if ready:
